@@ -44,6 +44,10 @@ type c05Case struct {
 	SrvSecret  string `json:"server_secret,omitempty"`
 	CliSecret  string `json:"client_secret,omitempty"`
 	SecretRel  string `json:"secret_relation,omitempty"` // equal different missing-on-client missing-on-server
+	// Preceded: the upstream list has another entry first, of the same kind but written with the OTHER host
+	// spelling and pointing at a port nobody listens on; the verdict depends on the second entry only
+	// (state left behind by the failed first attempt must not change what is verified for the second)
+	Preceded bool `json:"preceded_by_refused_upstream_with_other_host,omitempty"`
 }
 
 var carriers = []string{"tcp+tls", "wss", "tcp+starttls", "ws+starttls", "udp+starttls", "dns+starttls"}
@@ -156,7 +160,7 @@ func label(c *c05Case) string {
 }
 
 func key(c *c05Case) string {
-	return fmt.Sprintf("%s/%s/%s/%v/%s/%v/%s/%s", c.Kind, c.Carrier, c.Cert, c.Insecure, c.ClientCert, c.Require, c.Host, c.SecretRel)
+	return fmt.Sprintf("%s/%s/%s/%v/%s/%v/%s/%s/%v", c.Kind, c.Carrier, c.Cert, c.Insecure, c.ClientCert, c.Require, c.Host, c.SecretRel, c.Preceded)
 }
 
 // ---- running one case -------------------------------------------------------------------------
@@ -170,6 +174,23 @@ func start(c *c05Case) (*e2e.Pair, error) {
 	}
 	if c.Host == "localhost" {
 		o.UpstreamHost = "localhost"
+	}
+	if c.Preceded {
+		other := "localhost"
+		if c.Host == "localhost" {
+			other = "127.0.0.1"
+		}
+		dead := fmt.Sprintf("%s:%d", other, e2e.FreePort(false))
+		switch c.Carrier {
+		case "tcp+tls":
+			o.Before = []upstream.Upstream{&upstream.Socket{Address: addr.MustParseAddress("tcp+tls://" + dead)}}
+		case "wss":
+			o.Before = []upstream.Upstream{&upstream.Http{Address: addr.MustParseAddress("https://" + dead + "/ws/all")}}
+		case "tcp+starttls":
+			o.Before = []upstream.Upstream{&upstream.Socket{Address: addr.MustParseAddress("tcp://" + dead)}}
+		case "ws+starttls":
+			o.Before = []upstream.Upstream{&upstream.Http{Address: addr.MustParseAddress("http://" + dead + "/ws/all")}}
+		}
 	}
 	if c.ClientCert == "foreign-forced" {
 		o.NoClient = true
@@ -470,6 +491,14 @@ func coreTLS() []*c05Case {
 		add("Good", false, "foreign-forced", true, hs[0])
 		add("Good", false, "own", true, hs[0])
 		add("Untrusted", true, "none", false, hs[0])
+		// a failed first upstream written with the other host spelling must not influence the verification
+		if car == "tcp+tls" || car == "wss" || car == "tcp+starttls" || car == "ws+starttls" {
+			for _, h := range hs {
+				for _, ce := range []string{"Good", "GoodDNS", "IPOnly", "WrongHost"} {
+					out = append(out, &c05Case{Kind: "tls", Carrier: car, Cert: ce, ClientCert: "none", Host: h, Preceded: true})
+				}
+			}
+		}
 	}
 	return out
 }
@@ -566,6 +595,11 @@ func TestVerifC05(t *testing.T) {
 	var tls []*c05Case
 	if rec.Thorough() {
 		tls = allTLS()
+		for _, c := range coreTLS() {
+			if c.Preceded {
+				tls = append(tls, c)
+			}
+		}
 	} else {
 		tls = quickTLS(rec.Seed(), 100)
 	}
